@@ -86,7 +86,7 @@ Val(st, v) == CASE v = "a" -> st.a [] v = "b" -> st.b [] v = "n" -> st.n [] v = 
 Ops ==
      {[k |-> "append", v |-> v] : v \in V}
   \cup {[k |-> "popn"], [k |-> "clear"], [k |-> "len"], [k |-> "copy"], [k |-> "copymut"], [k |-> "suml"], [k |-> "enum"], [k |-> "whilepop"], [k |-> "popelse"],
-        [k |-> "extendys"], [k |-> "extendlit"], [k |-> "fill3"], [k |-> "fill0"], [k |-> "map"], [k |-> "mapmul"], [k |-> "filter"], [k |-> "enumcomp"], [k |-> "zipcomp"], [k |-> "rangeidx"], [k |-> "lenfilter"]}
+        [k |-> "extendys"], [k |-> "extendlit"], [k |-> "fill3"], [k |-> "fill0"], [k |-> "fillanno"], [k |-> "fillannolen"], [k |-> "map"], [k |-> "mapmul"], [k |-> "filter"], [k |-> "enumcomp"], [k |-> "zipcomp"], [k |-> "rangeidx"], [k |-> "lenfilter"]}
   \cup {[k |-> "popi", i |-> i] : i \in 0..1}
   \cup {[k |-> "insert", i |-> i, v |-> v] : i \in 0..1, v \in {"a", "n"}}
   \cup {[k |-> "inop", v |-> v, neg |-> g] : v \in {"a", "n"}, g \in BOOLEAN}
@@ -128,6 +128,9 @@ Apply(op, st) ==
     [] k = "inop" -> [st EXCEPT !.bb = IF op.neg THEN ~Contains(xs, Val(st, op.v)) ELSE Contains(xs, Val(st, op.v))]
     [] k = "fill3" -> [st EXCEPT !.xs = <<st.a, st.a, st.a>>]
     [] k = "fill0" -> [st EXCEPT !.xs = <<>>]
+    \* an ANNOTATED local declared by a fill (count first or value first): a list of that many elements, not of two
+    [] k = "fillanno" -> [st EXCEPT !.n = st.n + 30 + st.a]
+    [] k = "fillannolen" -> [st EXCEPT !.n = st.n + Len(xs) * 100 + Len(xs) * st.b]
     [] k = "len" -> [st EXCEPT !.n = Len(xs)]
     [] k = "copy" -> [st EXCEPT !.ys = xs]
     [] k = "copymut" -> [st EXCEPT !.ys = Append(xs, 1)]                                     \* ys = xs.copy(); ys.append(1): xs unchanged
@@ -231,6 +234,8 @@ Text(op) ==
     [] k = "inop" -> Line("bb = " \o VT(op.v) \o (IF op.neg THEN " not in xs" ELSE " in xs"))
     [] k = "fill3" -> Line("xs = [a] * 3")
     [] k = "fill0" -> Line("xs = [a] * 0")
+    [] k = "fillanno" -> Line("fa: list[int] = [a] * 3") \o Line("n += len(fa) * 10 + fa[0]")
+    [] k = "fillannolen" -> Line("fb: list[int] = len(xs) * [b]") \o Line("n += len(fb) * 100") \o Line("for fv in fb:") \o Line("\tn += fv")
     [] k = "len" -> Line("n = len(xs)")
     [] k = "copy" -> Line("ys = xs.copy()")
     [] k = "copymut" -> Line("ys = xs.copy()") \o Line("ys.append(1)")
@@ -341,7 +346,7 @@ Show(st) == IF IsUndef(st) THEN [undef |-> TRUE]
 Outcomes(ii, ops) == [j \in DOMAIN Args |-> Show(Run(ops, InitSt(ii, Args[j][1], Args[j][2])))]
 
 \* operations that declare a name (annotated local, nested function) occur at most once per program
-Declaring == {"flchain", "kwreorder", "kwskip", "closureloop", "zipcomp", "nested", "nestedapp", "dictlist", "dintkey", "untuple", "closure", "defarg"}
+Declaring == {"fillanno", "fillannolen", "flchain", "kwreorder", "kwskip", "closureloop", "zipcomp", "nested", "nestedapp", "dictlist", "dintkey", "untuple", "closure", "defarg"}
 Programs == {p \in [1..K -> Ops] : \A i, j \in 1..K : (i < j /\ p[i].k \in Declaring) => p[j].k # p[i].k}
 \* every value stays inside the agreement subset (|v| < 2^20) and no operation leaves the state space
 Bounded == \A ii \in DOMAIN InitText : \A p \in Programs : \A j \in DOMAIN Args :
